@@ -19,12 +19,14 @@ func init() {
 		Decided: "R1 command syntax: every option documented in the docs/config.md tables for carbon destinations, aggregations (addAgg), grafanaNet, kafkaMdm and pubsub routes has a command token, and the value parsed in that token's case reaches exactly the corresponding constructor parameter / config field, with the documented unit; no option token feeds an undocumented or different parameter; constructor parameters are stored into the corresponding struct fields; " +
 			"R2 TOML syntax: the documented settings of [[aggregation]], [[rewriter]] and [[route]] sections reach the same constructor parameters / config fields as the equally named command options, with the same unit (sub wins over substr); " +
 			"R3 defaults: the constants that reach each parameter when the option is absent equal the default column of docs/config.md, in both syntaxes (the defaults duplicated in imperatives and cfg agree); " +
+			"R5 modDest addr=host:port:instance goes through the same (address, instance) split as the address given at construction: the split function receives the option's full value; " +
 			"R4 interpolation: the configuration text never passes through os.Expand/os.ExpandEnv, exactly the four documented variables are substituted, and on every path that does not substitute a documented variable the only bytes written are copied from the input at the current position.",
 		NotDecided: "TOML decoding itself (third party); what each option does at run time; the free-text command grammar (token scanner); documentation prose outside the tables.",
 		Rules: []RuleDef{
 			{ID: "C20.R1", Min: 40, Doc: "command wiring: backward value-flow slice from every argument of destination.New / matcher.New / aggregator.New / route.NewKafkaMdm / route.NewPubSub and every store into GrafanaNetConfig fields inside the command readers; the option token guarding each parsed value, and the constant factor on the way, must match the frozen option→parameter table and the unit column of docs/config.md", Run: c20r1},
 			{ID: "C20.R2", Min: 30, Doc: "TOML wiring: the same slices inside cfg.InitAggregation / InitRewrite / InitRoutes end in the equally named cfg struct fields", Run: c20r2},
 			{ID: "C20.R3", Min: 30, Doc: "defaults: constants reaching each parameter equal docs/config.md defaults × unit", Run: c20r3},
+			{ID: "C20.R5", Min: 2, Doc: "modDest addr: the function that splits (address, instance) at construction — the call in destination.New whose two results are stored into Destination.Addr and Destination.Instance, fed by the unchanged address input — is, on the update path ((*Destination).Update and the methods it calls), handed the value given for option addr exactly as given (backward slice through the callees' parameters to the `case \"addr\"` value; no call result or computed piece in between)", Run: c20r5},
 			{ID: "C20.R4", Min: 4, Doc: "interpolation: call-graph reachability of os.Expand*; string cases of expandVars; emission discipline of expandConfig by path enumeration of one loop iteration", Run: c20r4},
 		},
 	})
@@ -798,6 +800,132 @@ func casesFunnelledThrough(sl *slicer, loops []*Loop, b *ssa.BasicBlock) []strin
 		}
 	}
 	return out
+}
+
+// c20r5: an address given to modDest means what the same address means at construction.
+func c20r5(c *Check) {
+	dn := c.P.Func("destination", "", "New")
+	addrF := c.P.Field("destination", "Destination", "Addr")
+	instF := c.P.Field("destination", "Destination", "Instance")
+	// (1) the split at construction: one call whose results are stored into Addr and Instance
+	var splitCall *ssa.Call
+	okPair := true
+	allInstrs(dn, func(in ssa.Instruction) {
+		st, ok := in.(*ssa.Store)
+		if !ok {
+			return
+		}
+		fa, ok := st.Addr.(*ssa.FieldAddr)
+		if !ok || (fieldOfAddr(fa) != addrF && fieldOfAddr(fa) != instF) {
+			return
+		}
+		call, _, ok := helperResult(st.Val)
+		if !ok {
+			okPair = false
+			return
+		}
+		if splitCall != nil && splitCall != call {
+			okPair = false
+		}
+		splitCall = call
+	})
+	if splitCall == nil || !okPair {
+		c.Undecided("destination.New splits the address into (Addr, Instance)", c.AtFn(dn), "no single helper call whose results are stored into Destination.Addr and Destination.Instance: the rule must be re-confirmed")
+		return
+	}
+	split := splitCall.Call.StaticCallee()
+	okIn := len(splitCall.Call.Args) == 1
+	var got []string
+	if okIn {
+		ss := newSlicer(c.P, dn).sources(splitCall.Call.Args[0])
+		okIn = len(ss) == 1 && (ss[0].Kind == "param" || ss[0].Kind == "paramfield")
+		for _, si := range ss {
+			got = append(got, si.String())
+		}
+	}
+	c.Judge(okIn, "destination.New address input → "+short(FuncName(split))+" → Destination.Addr, Destination.Instance", c.At(splitCall), "the address is split as given", fmt.Sprintf("the (address, instance) split at construction is fed by %v instead of the address input", got))
+	// (2) the update path
+	entry := c.P.Func("destination", "*Destination", "Update")
+	funcs := []*ssa.Function{entry}
+	inSet := map[*ssa.Function]bool{entry: true}
+	for i := 0; i < len(funcs) && i < 32; i++ {
+		allInstrs(funcs[i], func(in ssa.Instruction) {
+			if call, ok := in.(*ssa.Call); ok {
+				g := call.Call.StaticCallee()
+				if g != nil && g != split && g.Blocks != nil && ModuleFunc(g) && !inSet[g] && g.Pkg == entry.Pkg {
+					inSet[g] = true
+					funcs = append(funcs, g)
+				}
+			}
+		})
+	}
+	slicers := map[*ssa.Function]*slicer{}
+	slOf := func(fn *ssa.Function) *slicer {
+		if slicers[fn] == nil {
+			slicers[fn] = newSlicer(c.P, fn)
+		}
+		return slicers[fn]
+	}
+	// sources of v in fn with parameters bound to the call sites on the update path
+	var bound func(fn *ssa.Function, ss []srcInfo, depth int) []srcInfo
+	bound = func(fn *ssa.Function, ss []srcInfo, depth int) []srcInfo {
+		var out []srcInfo
+		for _, si := range ss {
+			if si.Kind != "param" || si.Param == nil || fn == entry || depth > 3 {
+				out = append(out, si)
+				continue
+			}
+			idx := -1
+			for i, p := range fn.Params {
+				if p == si.Param {
+					idx = i
+				}
+			}
+			n := 0
+			for _, caller := range funcs {
+				allInstrs(caller, func(in ssa.Instruction) {
+					call, ok := in.(*ssa.Call)
+					if !ok || call.Call.StaticCallee() != fn || idx < 0 || idx >= len(call.Call.Args) {
+						return
+					}
+					n++
+					out = append(out, bound(caller, slOf(caller).sourcesAt(call.Call.Args[idx], call.Block()), depth+1)...)
+				})
+			}
+			if n == 0 {
+				out = append(out, si)
+			}
+		}
+		return out
+	}
+	nCalls := 0
+	for _, fn := range funcs {
+		fn := fn
+		allInstrs(fn, func(in ssa.Instruction) {
+			call, ok := in.(*ssa.Call)
+			if !ok || call.Call.StaticCallee() != split || len(call.Call.Args) != 1 {
+				return
+			}
+			nCalls++
+			ss := bound(fn, slOf(fn).sourcesAt(call.Call.Args[0], call.Block()), 0)
+			names, _ := tokenSources(ss)
+			var derived []string
+			for _, si := range ss {
+				switch si.Kind {
+				case "token":
+				case "const":
+					// the "not given" value
+				default:
+					derived = append(derived, si.String())
+				}
+			}
+			okV := len(names) == 1 && names[0] == "str:addr" && len(derived) == 0
+			c.Judge(okV, "destination.Destination.Update (modDest) \"addr\" → "+short(FuncName(split))+" in "+short(FuncName(fn)), c.At(call), "the value given for addr is split as given, like the address at construction", fmt.Sprintf("the (address, instance) split on the modDest path is fed from the cases %v and from %v instead of the value given for addr as it stands: host:port:instance loses its instance, the same address means something else than at construction", names, derived))
+		})
+	}
+	if nCalls == 0 {
+		c.Undecided("destination.Destination.Update (modDest) \"addr\" → "+short(FuncName(split)), c.AtFn(entry), "the update path does not call the function that splits (address, instance) at construction: the rule must be re-confirmed")
+	}
 }
 
 func isMatcherOpt(s string) bool {
